@@ -372,7 +372,7 @@ int parse_instruction_pdk16(AsmContext *asm_context, char *instr)
             return -1;
           }
 
-          opcode = table_pdk16[n].opcode | (operands[0].value & 0x7ff);
+          opcode = table_pdk16[n].opcode | (operands[0].value & 0x1fff);
           add_bin16(asm_context, opcode, IS_OPCODE);
 
           return 2;
